@@ -544,9 +544,129 @@ func (h *harness) run() {
 	if sc.Cfg("stall_epilogue", 0) == 1 {
 		h.stalledConsumer()
 	}
+	if sc.Cfg("scale_epilogue", 0) == 1 && h.epilogue == "" {
+		h.bigCache()
+	}
+	if sc.Cfg("scale_epilogue", 0) == 2 && h.epilogue == "" {
+		h.manyConsumers()
+	}
 	h.mu.Lock()
 	h.done = true
 	h.mu.Unlock()
+}
+
+func (h *harness) setEpilogue(check, format string, a ...any) {
+	h.mu.Lock()
+	if h.epilogue == "" {
+		h.epilogue = check + "|" + fmt.Sprintf(format, a...)
+	}
+	h.mu.Unlock()
+}
+
+// bigCache is an epilogue on a relay of its own: with a caching predicate
+// enabled and nobody subscribed, far more envelopes than a receiver buffers
+// are put; the consumer that subscribes afterwards gets every one of them
+// exactly once, and nothing went to the default handler.
+func (h *harness) bigCache() {
+	s := h.s
+	relay := wire.NewRelay()
+	var dflt got
+	relay.SetDefaultMsgHandler(func(e *wire.Envelope) { t, _ := tagOf(e); dflt.add(t) })
+	all := func(*wire.Envelope) bool { return true }
+	relay.Cache(&all)
+	n := 20 + int(s.Delay("bigcache:n", 0, 60*time.Microsecond)/time.Microsecond)
+	for i := 0; i < n; i++ {
+		relay.Put(newEnvelope(i, 0))
+	}
+	s.Count("fault.many_cached_envelopes", 1)
+	rec := &recorder{}
+	if relay.Subscribe(rec, all) != nil {
+		return
+	}
+	time.Sleep(5 * time.Millisecond)
+	rec.mu.Lock()
+	seen := map[int]int{}
+	for _, t := range rec.tags {
+		seen[t]++
+	}
+	rec.mu.Unlock()
+	for i := 0; i < n; i++ {
+		if seen[i] != 1 {
+			dflt.mu.Lock()
+			nd := len(dflt.tags)
+			dflt.mu.Unlock()
+			h.setEpilogue("C18.lost-envelope@big-cache", "%d envelopes were put while a caching predicate matched and nobody was subscribed; the consumer that subscribed afterwards got envelope %d %d times (%d reached the default handler)", n, i, seen[i], nd)
+			return
+		}
+	}
+	_ = relay.Close()
+}
+
+// manyConsumers is an epilogue on a relay of its own: 40 consumers with
+// pairwise disjoint predicates are subscribed, most of them are closed again
+// in a drawn order, and then one envelope is put for every consumer. Each open
+// consumer gets exactly its own envelope; the envelopes of the closed ones go
+// to the default handler.
+func (h *harness) manyConsumers() {
+	s := h.s
+	relay := wire.NewRelay()
+	var dflt got
+	relay.SetDefaultMsgHandler(func(e *wire.Envelope) { t, _ := tagOf(e); dflt.add(t) })
+	const n = 40
+	recs := make([]*recorder, n)
+	for i := range recs {
+		i := i
+		recs[i] = &recorder{}
+		if relay.Subscribe(recs[i], func(e *wire.Envelope) bool { t, _ := tagOf(e); return t == i }) != nil {
+			return
+		}
+	}
+	s.Count("fault.many_consumers", 1)
+	// which stay open: 4-10 of them, by keyed coin flips; closing order: a keyed permutation
+	order := make([]int, n)
+	for i := range order {
+		order[i] = i
+	}
+	for i := n - 1; i > 0; i-- {
+		j := int(s.Delay(fmt.Sprintf("many:perm:%d", i), 0, time.Duration(i)*time.Microsecond) / time.Microsecond)
+		order[i], order[j] = order[j], order[i]
+	}
+	keep := 4 + int(s.Delay("many:keep", 0, 6*time.Microsecond)/time.Microsecond)
+	open := map[int]bool{}
+	for _, i := range order[:keep] {
+		open[i] = true
+	}
+	for _, i := range order[keep:] {
+		_ = recs[i].Close()
+		time.Sleep(s.Delay(fmt.Sprintf("many:close-gap:%d", i), 0, 30*time.Microsecond))
+	}
+	time.Sleep(5 * time.Millisecond) // the asynchronous removals have run
+	for i := 0; i < n; i++ {
+		relay.Put(newEnvelope(i, 0))
+	}
+	time.Sleep(time.Millisecond)
+	for i := 0; i < n; i++ {
+		recs[i].mu.Lock()
+		tags := append([]int{}, recs[i].tags...)
+		recs[i].mu.Unlock()
+		if open[i] && (len(tags) != 1 || tags[0] != i) {
+			h.setEpilogue("C18.lost-envelope@many-consumers", "of 40 consumers with disjoint predicates %d were closed; open consumer %d then got %v instead of exactly its own envelope", n-keep, i, tags)
+			return
+		}
+	}
+	dflt.mu.Lock()
+	nd := len(dflt.tags)
+	dflt.mu.Unlock()
+	if nd != n-keep {
+		h.setEpilogue("C18.lost-envelope@many-consumers", "of 40 consumers %d were closed: %d envelopes reached the default handler, %d were expected there", n-keep, nd, n-keep)
+	}
+	for i := range recs {
+		if open[i] {
+			_ = recs[i].Close()
+		}
+	}
+	time.Sleep(time.Millisecond)
+	_ = relay.Close()
 }
 
 // stalledConsumer is an epilogue on a relay of its own (the judged history has
